@@ -53,7 +53,13 @@ def run(chk):
     configs = ["union"] if chk.tier == "quick" else ["union", "allfeat"]
     for cfg in configs:
         chk.configs.append(cfg)
-        run_config(chk, Facts(cfg))
+        facts = Facts(cfg)
+        run_config(chk, facts)
+        # C06-i / C06-j: the container writer has no error channel -- panic-capable sites and loops in it are censused like
+        # those of the readers (rules/site_baseline.json)
+        from .sites import run_sites
+        run_sites(chk, facts, "C06-i", cfg)
+        run_sites(chk, facts, "C06-j", cfg)
     chk.assume("padding, checksum and 0xB1B0AFBA arithmetic and directory offsets are value level and not decided")
 
 
